@@ -227,6 +227,9 @@ def r18_4(ctx):
         st = {'accept_queue': list(holder.get('clients', [])), 'closed': []}
 
         def accept(i, b, a, k, n):
+            if not st['accept_queue']:
+                # a blocking accept() with no client waiting never returns
+                raise AbsRaise('NonTermination', n)
             c = st['accept_queue'].pop(0)
             return AList([c, AList(['client', 1234], 'tuple')], 'tuple')
         s = pm.AMock('server-socket', {'accept': accept, 'fileno': lambda i, b, a, k, n: ('fd', s),
@@ -256,6 +259,23 @@ def r18_4(ctx):
                                                    and oc.value.attrs.get('channel') == 1)
         ctx.require(ok and not any(e[0] == 'sleep' for e in oc.log), 'R18.4', f'PortServer.poll({label})', w,
                     f'server poll gives {oc.value!r} with {sum(1 for e in oc.log if e[0] == "sleep")} sleeps', construct=f'{rc.qname}::{label}')
+    # a client accepted earlier delivers a message later: a blocking receive must return it without waiting for another connection
+    for block in (True, False):
+        def thunk_b():
+            c = make_conn(([GAP, GAP] if block else [GAP]) + [0x91, n1, v1, GAP, GAP, GAP, GAP])
+            holder['clients'] = [c]
+            server = pm.new_port(ai, ctx, 'PortServer', ['localhost', 9080], {}, module=S)
+            first = pm.call(ai, ctx, server, 'poll')
+            ai.sleeps = 0
+            return first, pm.call(ai, ctx, server, 'receive', [], {'block': block})
+        outs = ai.explore(thunk_b)
+        lab = 'blocking' if block else 'non-blocking'
+        oc = c11.one(ctx, 'R18.4', f'PortServer.receive({lab}, message from an accepted client)', w, outs, f'{rc.qname}::accepted-client-{lab}')
+        if oc is not None:
+            ok = oc.kind == 'return' and oc.value[0] is None and isinstance(oc.value[1], AObj) and oc.value[1].attrs.get('type') == 'note_on'
+            ctx.require(ok, 'R18.4', f'PortServer.receive({lab}, message from an accepted client)', w,
+                        f'a client accepted earlier has a complete message but the server gives {oc} '
+                        '(NonTermination: the call sits in accept() waiting for another client)', construct=f'{rc.qname}::accepted-client-{lab}')
     # server close closes clients and the listening socket
     def thunk_c():
         holder['clients'] = [make_conn([0x91, n1, v1, GAP])]
